@@ -61,6 +61,10 @@ func init() {
 				Quick:    sc2(sc("authFacts", 1, "azCheck", 1, "policies", 2), "newFacts", 2, "newRule", 0, "newCheck", 0),
 				Thorough: sc2(sc("authFacts", 1, "blocks", 1, "blkFacts", 1, "blkCheck", 1, "azCheck", 1, "policies", 2), "newFacts", 1, "newRule", 2, "newCheck", 1),
 				Covers:   []string{"child-allowed", "child-refused"}},
+			{Pkg: "biscuit", Func: "VerifC02Attenuation",
+				Quick:    sc2(sc("authFacts", 3, "blocks", 1, "blkFacts", 1, "blkCheck", 1), "newFacts", 1, "newRule", 0, "newCheck", 0),
+				Thorough: sc2(sc("authFacts", 3, "blocks", 1, "blkFacts", 1, "blkCheck", 1, "azFacts", 1), "newFacts", 2, "newRule", 0, "newCheck", 0),
+				Covers:   []string{"child-allowed", "child-refused"}},
 		},
 		Assumptions: authzAssume, Models: relModels,
 		Explanation: "two symbolic executions of Authorize share all symbolic content: token T extended with block B versus T; the solver searches for content where the child is authorized and the parent is not",
@@ -74,6 +78,10 @@ func init() {
 			{Pkg: "biscuit", Func: "VerifC03Scoping",
 				Quick:    sc2(sc("authFacts", 1, "blkCheck", 1), "xFacts", 1, "xRule", 2),
 				Thorough: sc2(sc("authFacts", 1, "authRule", 1, "authCheck", 1, "blkFacts", 1, "blkRule", 1, "blkCheck", 2, "azFacts", 1, "azCheck", 1), "xFacts", 2, "xRule", 2),
+				Covers:   []string{"compared"}},
+			{Pkg: "biscuit", Func: "VerifC03Scoping",
+				Quick:    sc2(sc("authFacts", 1, "blkCheck", 2), "xFacts", 0, "xRule", 2),
+				Thorough: sc2(sc("authFacts", 2, "blkFacts", 1, "blkCheck", 2), "xFacts", 0, "xRule", 2),
 				Covers:   []string{"compared"}},
 		},
 		Assumptions: authzAssume, Models: relModels,
@@ -118,6 +126,7 @@ func init() {
 				Quick:    p("authRule", 1, "authCheck", 0, "azRule", 1, "azRule2", 0, "qMode", 1, "policies", 1, "polMode", 1, "polq", 1),
 				Thorough: p("authRule", 2, "authCheck", 1, "azRule", 1, "azRule2", 1, "qMode", 2, "policies", 2, "polMode", 1, "polq", 1),
 				Covers:   []string{"compared"}},
+			{Pkg: "biscuit", Func: "VerifC12RuleOrder", Quick: p("polq", 1), Thorough: p("polq", 1), Covers: []string{"compared"}},
 		},
 		Assumptions: authzAssume, Models: relModels,
 		Explanation: "the same symbolic content is presented twice, the second time transformed (facts / rules / checks / queries permuted, variable renamed, a fact duplicated, or Authorize called twice on one authorizer); outcome class and derived facts compared by the solver",
